@@ -159,7 +159,7 @@ class DictArray(StorageBase):
 
     def mask_linear(self) -> list[bool]:
         """Return a list of booleans indicating which elements are missing."""
-        return list(self.mask.data[:].flat)
+        return list(self.mask.data.flat)  # (`[:]` is not possible for a 0-dimensional array)
 
     def dump(self, key: tuple[int | slice, ...], value: Any) -> None:
         """Dump 'value' into the location associated with 'key'.
@@ -225,7 +225,7 @@ def _masked_empty(shape: tuple[int, ...]) -> np.ndarray:
     # sets the elements to 0.0.
     x: np.ndarray = np.empty((1,), dtype=object)
     x[0] = np.ma.masked
-    return np.tile(x, shape)
+    return np.tile(x, shape).reshape(shape)  # `np.tile(x, ())` has shape (1,)
 
 
 class SharedMemoryDictArray(DictArray):
